@@ -184,7 +184,7 @@ def encValue (env : Env) (f : Field) : EncKind → Except EncErr Int
     (match f.raw with
      | .none => (match f.value with
         | .none => pure (naTime bits signed)
-        | .time s => pure s
+        | .time s => if res.val = 0 then throw .type_ else pure (rhe (pyDiv (.int s) (litNum res)))   -- round(seconds / resolution)
         | _ => throw .type_)
      | .int z => if res.val = 0 then throw .type_ else pure (rhe (pyDiv (.int z) (litNum res)))
      | .flt q => if res.val = 0 then throw .type_ else pure (rhe (pyDiv (.flt q) (litNum res)))
